@@ -405,8 +405,27 @@ def wcounts(run, args_list):
     return out
 
 
+def wfaultfree(run):
+    """fault-free in-memory webp inputs (no fault sweep): boundary cases, truncations at every byte, mutations"""
+    quick = run.tier == "quick"
+    raw = list(W.boundary_cases("cursor")) + list(W.boundary_cases("strict")) + list(W.truncations("cursor"))
+    raw += list(W.mutations(run.rng, 400 if quick else 20000))
+    raw += list(W.sequences(2 if quick else 3, [0, W.ALPHA, W.ANIM, W.ICCP | W.EXIF | W.XMP]))
+    seen = set()
+    for l, tag in raw:
+        c = W.parse_case(l)
+        if c["len"] > 2**20:
+            continue
+        rd = "strict" if c["reader"] == "strict" else "lenient"
+        a = "%s %d %d %s" % (rd, 1 if c["allow"] else 0, c["len"], l.split(" ")[4])
+        if a not in seen:
+            seen.add(a)
+            yield "wcount " + a, "webp-fault-free-" + tag
+
+
 def gen(run):
     yield from _mp4f["gen"](run)
+    yield from wfaultfree(run)
     cs = wcorpus(run)
     for (a, tag), (n, _) in zip(cs, wcounts(run, [a for a, _ in cs])):
         yield "wcount " + a, "webp-fault-free-" + tag
